@@ -13,6 +13,7 @@
 # See the License for the specific language governing permissions and
 # limitations under the License.
 
+import sys
 import typing
 from typing import Optional, Tuple, Any, Type, Dict, Callable, Union
 
@@ -151,7 +152,11 @@ class Instruction(_mixins.DictMixin, _mixins.RegisterMixin, _mixins.CodeMixin):
     @staticmethod
     def _param_repr(value: Any) -> str:
         if isinstance(value, np.ndarray):
-            return "np." + repr(value)
+            # NOTE: Every element is printed with as many digits as needed to identify
+            # it uniquely, and large arrays are not summarized, so that the generated
+            # code reproduces the array exactly.
+            with np.printoptions(floatmode="unique", threshold=sys.maxsize):
+                return "np." + repr(value)
 
         return value
 
